@@ -213,6 +213,7 @@ let eval (op : string) (a : string list) : string =
      | Rejected (_, RejRoute e) -> "rej:" ^ enc_err e
      | Rejected (_, RejBrokerNotAvailable) -> "unavail"
      | Rejected (_, RejCoordinatorLookup) -> "dial:c"
+     | Rejected (_, RejCoordinatorError e) -> "rej:coordinator:" ^ hex_of_z e
      | SendPanic -> "panic")
   | "e2e", [boot; m; vers; client; req; fc] ->
     e2e_trace boot (md_of m) (vers_of vers) (ranges_of client) req (fc_of fc)
